@@ -228,6 +228,9 @@ func (x *Exec) execInstr(fr *Frame, b *ssa.BasicBlock, ins ssa.Instruction, st *
 		for _, r := range i.Results {
 			rs = append(rs, x.get(fr, st, r))
 		}
+		if fr == fr.top {
+			x.returnAsserts(fr, st, i)
+		}
 		fr.rets = append(fr.rets, RetSite{St: st.clone(), Results: rs})
 	case *ssa.Panic:
 		if fr.top.nopanic {
